@@ -79,9 +79,6 @@ func (P *Program) dischargeOne(o *Obligation, dir string, timeoutMs int, all boo
 	if !strings.Contains(o.Cond, "(forall ") && !strings.Contains(o.Cond, "(exists ") {
 		lq := P.queryForOpt(o, false, true)
 		liteSolvers := []string{"z3-new", "z3"}
-		if fastMode {
-			liteSolvers = []string{"z3-new"}
-		}
 		if r := runQuery(dir, o.Name+".lite", lq, 1500, false, liteSolvers); r.Verdict == "unsat" {
 			r.Solver += "(lite)"
 			return oblResult{Obl: o, Res: r, OK: true}
@@ -92,6 +89,10 @@ func (P *Program) dischargeOne(o *Obligation, dir string, timeoutMs int, all boo
 		only = []string{"z3-new"}
 	}
 	r := runQuery(dir, o.Name, q, timeoutMs, all, only)
+	if fastMode && r.Verdict != "unsat" && r.Verdict != "sat" {
+		// the single fast solver gave up: let the others try before calling it a failure
+		r = runQuery(dir, o.Name, q, timeoutMs, all, []string{"z3", "cvc5"})
+	}
 	return oblResult{Obl: o, Res: r, OK: r.Verdict == "unsat"}
 }
 
